@@ -14,6 +14,32 @@ use crate::obs::*;
 use graphrs::algorithms::shortest_path::{dijkstra, ShortestPathInfo};
 use graphrs::GraphSpecs;
 use std::collections::HashMap;
+use std::sync::atomic::{AtomicBool, Ordering};
+use std::sync::Arc;
+
+/// set when a call did not return within the watchdog limit: the thread running it is
+/// abandoned (still consuming CPU / memory), so the rest of the run is cut short
+static HUNG: AtomicBool = AtomicBool::new(false);
+pub fn hung() -> bool {
+    HUNG.load(Ordering::SeqCst)
+}
+const LIMIT_MS: u64 = 6000;
+
+/// Some(r): returned; None after recording code 100 (panic) or 101 (no answer in time)
+fn watched<R: Send + 'static, F: FnOnce() -> R + Send + 'static>(o: &mut Out, f: F) -> Option<R> {
+    match guard_t(LIMIT_MS, f) {
+        Some(Some(r)) => Some(r),
+        Some(None) => {
+            o.obs(1, &[vec![PANIC]], &[]);
+            None
+        }
+        None => {
+            o.obs(1, &[vec![HANG]], &[]);
+            HUNG.store(true, Ordering::SeqCst);
+            None
+        }
+    }
+}
 
 fn info_row(key: &[i64], i: &ShortestPathInfo<i64>) -> Vec<i64> {
     let mut r = key.to_vec();
@@ -63,8 +89,8 @@ fn involving_obs(l: &[ShortestPathInfo<i64>], o: &mut Out) {
     o.obs(1042, &rows, &fl);
 }
 
-fn call(g: &G, t: &mut Toks, o: &mut Out) {
-    let f = t.s();
+fn call(g: &Arc<G>, t: &mut Toks, o: &mut Out) {
+    let f = t.s().to_string();
     let weighted = t.i() != 0;
     let _level = t.i();
     let ns = t.u();
@@ -78,40 +104,42 @@ fn call(g: &G, t: &mut Toks, o: &mut Out) {
     let cutoff = if cf != 0 { Some(cn as f64 / cd as f64) } else { None };
     let fo = t.i() != 0;
     let wp = t.i() != 0;
-    match f {
+    let g = g.clone();
+    match f.as_str() {
         "single" => {
-            let r = guard(|| dijkstra::single_source(g, weighted, sources[0], target, cutoff, fo, wp));
-            o.obs(1, &[vec![res_code(&r)]], &[]);
-            if let Some(Ok(m)) = r {
-                single_obs(&m, o);
-                o.obs(45, &[vec![1]], &[]);
+            let s0 = sources[0];
+            if let Some(r) = watched(o, move || dijkstra::single_source(&*g, weighted, s0, target, cutoff, fo, wp)) {
+                o.obs(1, &[vec![code_of(&r)]], &[]);
+                if let Ok(m) = r {
+                    single_obs(&m, o);
+                    o.obs(45, &[vec![1]], &[]);
+                }
             }
         }
         "multi" => {
-            let r = guard(|| dijkstra::multi_source(g, weighted, sources.clone(), target, cutoff, fo, wp));
-            o.obs(1, &[vec![res_code(&r)]], &[]);
-            if let Some(Ok(m)) = r {
-                pairs_obs(&m, o);
-                o.obs(45, &[vec![1]], &[]);
+            if let Some(r) = watched(o, move || dijkstra::multi_source(&*g, weighted, sources, target, cutoff, fo, wp)) {
+                o.obs(1, &[vec![code_of(&r)]], &[]);
+                if let Ok(m) = r {
+                    pairs_obs(&m, o);
+                    o.obs(45, &[vec![1]], &[]);
+                }
             }
         }
         "all_pairs" => {
-            let r = guard(|| dijkstra::all_pairs(g, weighted, target, cutoff, fo, wp));
-            o.obs(1, &[vec![res_code(&r)]], &[]);
-            if let Some(Ok(m)) = r {
-                pairs_obs(&m, o);
-                o.obs(45, &[vec![1]], &[]);
+            if let Some(r) = watched(o, move || dijkstra::all_pairs(&*g, weighted, target, cutoff, fo, wp)) {
+                o.obs(1, &[vec![code_of(&r)]], &[]);
+                if let Ok(m) = r {
+                    pairs_obs(&m, o);
+                    o.obs(45, &[vec![1]], &[]);
+                }
             }
         }
         "involving" => {
-            let r = guard(|| dijkstra::get_all_shortest_paths_involving(g, sources[0], weighted));
-            match r {
-                None => o.obs(1, &[vec![PANIC]], &[]),
-                Some(l) => {
-                    o.obs(1, &[vec![0]], &[]);
-                    involving_obs(&l, o);
-                    o.obs(45, &[vec![1]], &[]);
-                }
+            let x = sources[0];
+            if let Some(l) = watched(o, move || dijkstra::get_all_shortest_paths_involving(&*g, x, weighted)) {
+                o.obs(1, &[vec![0]], &[]);
+                involving_obs(&l, o);
+                o.obs(45, &[vec![1]], &[]);
             }
         }
         _ => {
@@ -121,9 +149,16 @@ fn call(g: &G, t: &mut Toks, o: &mut Out) {
     }
 }
 
+fn code_of<X>(r: &Result<X, graphrs::Error>) -> i64 {
+    match r {
+        Ok(_) => 0,
+        Err(e) => kind_code(&e.kind),
+    }
+}
+
 pub fn run_case(lines: &[Vec<String>], o: &mut Out) {
     let mut specs = GraphSpecs::directed();
-    let mut g: Option<G> = None;
+    let mut g: Option<Arc<G>> = None;
     for l in lines {
         let mut t = Toks::new(l);
         match t.s() {
@@ -141,7 +176,9 @@ pub fn run_case(lines: &[Vec<String>], o: &mut Out) {
                         o.obs(2, &rows, &[]);
                         let rows: Vec<Vec<i64>> = h.get_all_edges().iter().map(|e| edge_row(e)).collect();
                         o.obs(1003, &rows, &[]);
-                        g = Some(h);
+                        // model side: the hypotheses of the Coq theorems hold for this graph
+                        o.obs(46, &[vec![1, 1]], &[]);
+                        g = Some(Arc::new(h));
                     }
                     _ => return,
                 }
@@ -149,6 +186,9 @@ pub fn run_case(lines: &[Vec<String>], o: &mut Out) {
             "call" => {
                 if let Some(gr) = &g {
                     call(gr, &mut t, o);
+                    if hung() {
+                        return;
+                    }
                 }
             }
             other => {
